@@ -36,8 +36,11 @@ static void write_case_file(const std::string &path, const std::vector<uint8_t> 
 	FILE *f = fopen(path.c_str(), "w");
 	if (!f)
 		return;
-	fprintf(f, "VERIFCASE v1\nharness: %s\nmode: %s\nkf: %s\nwhy: %s\nhex: %s\n", HARNESS_ID, mode.c_str(),
-	        kf.c_str(), why.c_str(), to_hex(buf).c_str());
+	fprintf(f, "VERIFCASE v1\nharness: %s\nmode: %s\nkf: %s\nwhy: %s\n", HARNESS_ID, mode.c_str(), kf.c_str(), why.c_str());
+	// process-level inputs a replay must reproduce (e.g. the pinned hash seed)
+	if (getenv("VERIF_HASHSEED"))
+		fprintf(f, "env: VERIF_HASHSEED=%s\n", getenv("VERIF_HASHSEED"));
+	fprintf(f, "hex: %s\n", to_hex(buf).c_str());
 	fclose(f);
 }
 static void death_cb()
